@@ -156,10 +156,11 @@ func init() {
 			return out
 		},
 		Asserts: []string{"C11.sleep_request_answered", "C11.nothing_sent_while_asleep", "C11.buffered_delivered_once_then_pingresp", "C11.buffered_in_original_order", "C11.followed_by_pingresp", "C11.asleep_again_after_pingresp", "C11.timed_delivered_once", "C11.first_cycle_delivered_once", "C11.second_cycle_delivers_only_its_own_packets", "C11.race_message_delivered_once", "C11.race_each_wakeup_answered", "C11.race_free"},
-		Reach:   []string{"C11.woke_up", "C11.second_cycle", "C11.woke_up_later", "C11.second_wakeup", "C11.race_done"},
+		Reach:   []string{"C11.woke_up", "C11.wake_without_client_id", "C11.second_cycle", "C11.woke_up_later", "C11.second_wakeup", "C11.race_done"},
 		Bounds: map[string]string{
 			"cycle":  "active client, DISCONNECT(duration symbolic > 0), then 1..2 broker events among PUBLISH QoS 0 short / QoS 1 registered / QoS 0 new topic (REGISTER) / QoS 2 short / PINGRESP / UNSUBACK with symbolic IDs, payload byte, retain; PINGREQ; oracle = a twin session that never slept and received the same events",
 			"second": "one more broker PUBLISH after the wake-up PINGRESP (second sleep cycle)",
+			"wake":   "the wake-up PINGREQ of the cycle and timed harnesses carries the client ID or an empty client ID field (symbolic choice); the two-cycle and race harnesses always send the ID",
 			"race":   "pre-emptive interleavings (context bound 1 and 2) of a broker PUBLISH on the broker-side receive goroutine with the wake-up PINGREQ on the client-side receive goroutine: the message is delivered exactly once, in this wake-up or the next; each wake-up gets one PINGRESP; no lock-free conflicting accesses",
 			"cycles": "two sleep cycles: cycle 1 ended by PINGREQ or by CONNECT (back to active), then DISCONNECT(d) again, a second broker event, PINGREQ: only the second cycle's packets arrive, once",
 			"timed":  "virtual time: one broker PUBLISH QoS 1 / QoS 2 while asleep, wake-up after a symbolic time < 3.5 s with the gateway's retry timers (RetryDelay 1 s, RetryCount 2) running",
